@@ -1,10 +1,119 @@
 (* C15 — every HTTP response is a well-formed, self-delimiting message with exact body.
-   Only statements here; proofs live in Proofs/HttpResponseP.v. *)
+   Only statements here; proofs live in Proofs/HttpResponseP.v.
+
+   [cfg]      one response as the application left it: protocol, method, status, headers, body shape
+              (sized list / iterator, stream flag) and body pieces, and the keep-alive wish (close0);
+   [respond]  model of Response.prepare + HTTP._on_response/_on_stream: the write events and the close;
+   [wire]     the concatenated bytes; [closed] whether the server closes the connection;
+   [parse]    an independent HTTP/1.x client (status line, headers, body by HEAD/1xx/204/304 rule,
+              chunked, Content-Length, or until close) returning the response and the unread rest;
+   [wf]       header names/values and reason are free of CR (names of colon), the application sets none
+              of Content-Length/Transfer-Encoding/Connection itself, 100 <= status <= 999, and the stream
+              flag is only used with iterator bodies. *)
 From Coq Require Import String List NArith Bool.
 From Circ Require Import Model.HttpResponse Proofs.HttpResponseP.
 Import ListNotations.
 Open Scope N_scope.
 
+(* Every response parses back to exactly the status, reason, headers (application headers followed by the
+   framing headers) and body bytes; the client stops exactly at the end of the response, whatever follows
+   ([rest]); only a response that is delimited by the close must be the last thing on the connection. *)
+Theorem C15_roundtrip : forall c rest, wf c = true -> (until_close c = true -> rest = []) ->
+  parse (head c) (wire c ++ rest) = Some (expected c, rest).
+Proof. exact roundtrip. Qed.
+Print Assumptions C15_roundtrip.
+
+(* the application's headers are among the recovered ones; the recovered body is the concatenation of the
+   body pieces (none for HEAD and for 1xx/204/205/304) *)
+Theorem C15_expected_is_app_data : forall c,
+  incl (pre c) (p_headers (expected c)) /\ p_status (expected c) = status c /\
+  p_body (expected c) = if head c || nobody_status (status c) then [] else concat (chunks c).
+Proof. exact expected_app_data. Qed.
+Print Assumptions C15_expected_is_app_data.
+
+(* the server never answers a configuration in the domain with an exception *)
+Theorem C15_no_crash : forall c, wf c = true -> respond c <> Crash.
+Proof. exact no_crash. Qed.
+Print Assumptions C15_no_crash.
+
+(* the connection is closed iff the response, as the client reads it, says so *)
+Theorem C15_closed_iff_announced : forall c rest r rest', wf c = true -> (until_close c = true -> rest = []) ->
+  parse (head c) (wire c ++ rest) = Some (r, rest') -> p_close r = closed c.
+Proof. exact close_iff_announced. Qed.
+Print Assumptions C15_closed_iff_announced.
+
+(* HEAD, 1xx, 204, 205, 304: only status line and header block reach the wire *)
+Theorem C15_no_body : forall c, wf c = true ->
+  head c = true \/ nobody_status (status c) = true -> wire c = head_bytes c.
+Proof. exact no_body_bytes. Qed.
+Print Assumptions C15_no_body.
+
+(* keep-alive wishes: a request that asked for close gets it; a keep-alive request keeps the connection
+   whenever the body can be delimited without closing (known length, or chunked to an HTTP/1.1 GET) *)
+Theorem C15_close_wish : forall c, wf c = true -> close0 c = true -> closed c = true.
+Proof. exact close_wish_honoured. Qed.
+Print Assumptions C15_close_wish.
+
+Theorem C15_keep_alive_kept : forall c, wf c = true -> close0 c = false -> status c <> 413 ->
+  eff_sized c = true \/ (v11 c = true /\ head c = false) -> closed c = false.
+Proof. exact keep_alive_kept. Qed.
+Print Assumptions C15_keep_alive_kept.
+
+(* chunked encoding is only used towards HTTP/1.1, never for HEAD, never together with Content-Length;
+   and Content-Length is the number of body bytes *)
+Theorem C15_chunked_only_11 : forall c, chunked c = true -> v11 c = true /\ head c = false /\ clen c = None.
+Proof. exact chunked_only_11. Qed.
+Print Assumptions C15_chunked_only_11.
+
+Theorem C15_content_length_exact : forall c n, clen c = Some n ->
+  n = N.of_nat (length (concat (eff_chunks c))).
+Proof. exact content_length_exact. Qed.
+Print Assumptions C15_content_length_exact.
+
+(* any sequence of requests on one connection, each response but the last leaving it open: the client reads
+   the concatenated output as exactly the sequence of responses, with nothing left over *)
+Theorem C15_keepalive_sequence : forall cs, conn_ok cs = true ->
+  parse_many (map head cs) (concat (map wire cs)) = Some (map expected cs).
+Proof. exact keepalive_sequence. Qed.
+Print Assumptions C15_keepalive_sequence.
+
+(* codecs used for Content-Length and chunk sizes *)
 Theorem C15_dec_roundtrip : forall n, undec (dec n) = Some n.
 Proof. exact undec_dec. Qed.
 Print Assumptions C15_dec_roundtrip.
+
+Theorem C15_hex_roundtrip : forall n, unhex (hex n) = Some n.
+Proof. exact unhex_hex. Qed.
+Print Assumptions C15_hex_roundtrip.
+
+(* ---- non-vacuity *)
+Definition ex_stream : cfg :=
+  {| v11 := true; head := false; status := 200; reason := str "OK"; close0 := false;
+     pre := [(str "X-Tag", str "7")]; sized := false; stream := true;
+     chunks := [[]; str "abc"; []; str "de"] |}.
+Definition ex_head : cfg :=
+  {| v11 := true; head := true; status := 200; reason := str "OK"; close0 := false;
+     pre := []; sized := true; stream := false; chunks := [str "hello"] |}.
+Definition ex_204 : cfg :=
+  {| v11 := true; head := false; status := 204; reason := str "No Content"; close0 := false;
+     pre := []; sized := true; stream := false; chunks := [str "dropped"] |}.
+Definition ex_10_iter : cfg :=
+  {| v11 := false; head := false; status := 200; reason := str "OK"; close0 := false;
+     pre := []; sized := false; stream := false; chunks := [str "a"; str "b"] |}.
+
+Example C15_ex_wf : forallb wf [ex_stream; ex_head; ex_204; ex_10_iter] = true.
+Proof. vm_compute. reflexivity. Qed.
+Example C15_ex_stream_wire :
+  match respond ex_stream with
+  | Out (_ :: body) cl => body = [str "3" ++ crlf ++ str "abc" ++ crlf; str "2" ++ crlf ++ str "de" ++ crlf; term] /\ cl = false
+  | _ => False
+  end.
+Proof. vm_compute. split; reflexivity. Qed.
+Example C15_ex_until_close : until_close ex_10_iter = true /\ closed ex_10_iter = true /\ chunked ex_stream = true.
+Proof. vm_compute. repeat split. Qed.
+Example C15_ex_seq : conn_ok [ex_head; ex_204; ex_stream; ex_10_iter] = true.
+Proof. vm_compute. reflexivity. Qed.
+Example C15_ex_seq_parse :
+  option_map (map p_body) (parse_many [true; false; false; false] (concat (map wire [ex_head; ex_204; ex_stream; ex_10_iter])))
+  = Some [[]; []; str "abcde"; str "ab"].
+Proof. vm_compute. reflexivity. Qed.
